@@ -3,7 +3,7 @@
 import random
 
 P = 34; QMIN = -6176; QMAX = 6111; BIAS = 6176
-T34 = 10 ** 34; T33 = 10 ** 33
+T34 = 10 ** 34; T33 = 10 ** 33; M64 = (1 << 64) - 1
 M128 = (1 << 128) - 1
 INV, DEN, DBZ, OVF, UNF, INX = 1, 2, 4, 8, 0x10, 0x20
 
@@ -91,8 +91,12 @@ def finite(rng, q=None, e=None, s=None):
 def zero(rng): return fin(rng.randint(0, 1), 0, expo(rng))
 
 
-def noncanon_small(rng):
-    return (rng.randint(0, 1) << 127) | ((expo(rng) + BIAS) << 113) | rng.randint(T34, (1 << 113) - 1)
+def noncanon_small(rng, e=None):
+    """coefficient field in [10^34, 2^113): value zero; the first and last such fields and their neighbours are over-represented"""
+    k = rng.random()
+    c = rng.choice([T34, T34, T34 + 1, T34 + rng.randint(1, 1000), (1 << 113) - 1, (1 << 113) - 1 - rng.getrandbits(20), (T34 | M64) + 1, T34 + (1 << 64)]) if k < 0.4 \
+        else rng.randint(T34, (1 << 113) - 1)
+    return (rng.randint(0, 1) << 127) | (((expo(rng) if e is None else e) + BIAS) << 113) | c
 
 
 def noncanon_large(rng, e=None):
